@@ -64,3 +64,27 @@ pub open spec fn xwalk(x: Seq<u8>, pos: int, st: XState) -> Option<XState>
         } else { xwalk(x, next, st) }
     }
 }
+
+// ---- APPNOTE 4.5.3: a header carries at most ONE ZIP64 extended information record.  When an existing directory is
+// re-emitted (new_append + finalize) that record is regenerated from the entry's values, so the copy that was read must go.
+// end of the record that starts at `pos` (a record whose declared size overruns the field extends to its end)
+pub open spec fn xend(x: Seq<u8>, pos: int) -> int {
+    if xlen(x, pos) > x.len() - pos - 4 { x.len() as int } else { pos + 4 + xlen(x, pos) }
+}
+// the records of x from `pos` on, in order, except those with the ZIP64 id; fewer than 4 trailing bytes are kept as they are
+pub open spec fn strip_z64(x: Seq<u8>, pos: int) -> Seq<u8>
+    decreases x.len() - pos
+{
+    if pos < 0 || pos > x.len() { Seq::<u8>::empty() }
+    else if x.len() - pos < 4 { x.subrange(pos, x.len() as int) }
+    else {
+        (if xkind(x, pos) != 0x0001 { x.subrange(pos, xend(x, pos)) } else { Seq::<u8>::empty() }) + strip_z64(x, xend(x, pos))
+    }
+}
+// does a complete record with the ZIP64 id start at a record boundary at or after `pos`?
+pub open spec fn has_z64(x: Seq<u8>, pos: int) -> bool
+    decreases x.len() - pos
+{
+    if pos < 0 || x.len() - pos < 4 || xlen(x, pos) > x.len() - pos - 4 { false }
+    else { xkind(x, pos) == 0x0001 || has_z64(x, pos + 4 + xlen(x, pos)) }
+}
